@@ -129,6 +129,17 @@ class Runner:
             bad = i + len(got)
             why = "timeout" if rc == 124 else ("signal %d" % -rc if rc < 0 else "exit %d" % rc)
             tail = (se or "").strip().splitlines()[-1:] or [""]
+            if rc == 124:
+                # the batch ran out of time: on a loaded machine that says nothing about the line that happened to be
+                # running; it is a hang only if that line ALONE does not answer within a generous limit
+                rc1, so1, se1 = C.run_bin(self.argv, chunk[len(got)] + "\n", timeout=max(120.0, 4 * self.per_line_timeout))
+                g1 = so1.splitlines()
+                if g1:
+                    out[bad] = g1[0]
+                    i = bad + 1
+                    continue
+                why = "timeout" if rc1 == 124 else ("signal %d" % -rc1 if rc1 < 0 else "exit %d" % rc1)
+                tail = (se1 or "").strip().splitlines()[-1:] or [""]
             out[bad] = "CRASH %s %s" % (why, tail[0][:200])
             i = bad + 1
         return out
